@@ -325,6 +325,12 @@ theorem hk_boson (D : Nat) (c : GQ) (h : Lat D c) :
   · exact lat_congr D c _ (by simp only [Kind.swapCoeff]; ring) h
   · exact lat_congr D c _ (by simp only [Kind.contractCoeff]; ring) h
 
+/-- fermions: the run with the real tolerance and the run with tolerance 0 agree on the lattice -/
+theorem normal_ordered_exact_regime_aux (D : Nat) (hD : 0 < D) (tol : Rat) (h0 : 0 ≤ tol) (h1 : tol * D ≤ 1)
+    (a : Op) (la : ∀ e ∈ a, Lat D e.2) (t : Term) :
+    Dict.getD (normalOrdered tol .fermion a) t 0 = Dict.getD (normalOrdered 0 .fermion a) t 0 :=
+  (normalOrdered_sim D hD tol h0 h1 .fermion (hk_fermion D) (fun _ c hc => lat_mul_one D c hc) a la).2.2.2.2 t
+
 end C03
 end Proofs
 end OFV
